@@ -31,6 +31,10 @@ type Transport struct {
 	closeCh   chan struct{}
 	dialed    int
 	dialFails int
+	// deadline observation on the renter's end of the last stream
+	deadlineCap   time.Duration
+	deadlineArmed bool
+	lastRenterEnd *memConn
 }
 
 // NewTransport creates a transport for a host with the given key.
@@ -65,6 +69,34 @@ func (t *Transport) Dials() (ok, failed int) {
 	return t.dialed, t.dialFails
 }
 
+// SetDeadlineCap compresses every deadline the renter arms on its stream to at
+// most d (0: leave it alone), so that a default stream timeout of minutes can
+// be observed in milliseconds.
+func (t *Transport) SetDeadlineCap(d time.Duration) {
+	t.mu.Lock()
+	t.deadlineCap = d
+	t.mu.Unlock()
+}
+
+// DeadlineArmed reports whether a non-zero deadline was set on the renter's
+// end of the most recently dialed stream.
+func (t *Transport) DeadlineArmed() bool {
+	t.mu.Lock()
+	defer t.mu.Unlock()
+	return t.deadlineArmed
+}
+
+// KillLastStream closes the renter's end of the most recently dialed stream
+// (to get a call back that would otherwise block for ever).
+func (t *Transport) KillLastStream() {
+	t.mu.Lock()
+	c := t.lastRenterEnd
+	t.mu.Unlock()
+	if c != nil {
+		c.Close()
+	}
+}
+
 // ---- rhp.TransportClient ----
 
 // DialStream opens a new stream through the man-in-the-middle.
@@ -90,6 +122,21 @@ func (t *Transport) DialStream(ctx context.Context) (net.Conn, error) {
 
 	renterEnd, mitmR := newMemPipe("renter", "mitm-r")
 	mitmH, hostEnd := newMemPipe("mitm-h", "host")
+	renterEnd.onDeadline = func(d time.Time) time.Time {
+		t.mu.Lock()
+		defer t.mu.Unlock()
+		if d.IsZero() {
+			return d
+		}
+		t.deadlineArmed = true
+		if t.deadlineCap > 0 && time.Until(d) > t.deadlineCap {
+			return time.Now().Add(t.deadlineCap) // compress the armed deadline
+		}
+		return d
+	}
+	t.mu.Lock()
+	t.deadlineArmed, t.lastRenterEnd = false, renterEnd
+	t.mu.Unlock()
 	hostEnd.onClose = func() {
 		t.mu.Lock()
 		t.openHost--
